@@ -171,11 +171,12 @@ Record mstate := {
   saved : list ptask;                 (* during a restart: what the database must give back *)
   stop_mode : option smode;
   stop_task : option tid;
+  crash_mode : bool;                  (* reloading after a crash: the database may lag the lost process *)
 }.
 
 Definition init_state (c : cfg) : mstate :=
   {| pool := []; limbo := []; hist := []; subs := []; limit := None; relq := []; abs_done := [];
-     stop_point := c_fcp c; done := []; to_hold := []; hold_pt := None; saved := []; stop_mode := None; stop_task := None |}.
+     stop_point := c_fcp c; done := []; to_hold := []; hold_pt := None; saved := []; stop_mode := None; stop_task := None; crash_mode := false |}.
 
 Fixpoint find_task (l : list ptask) (t : tid) : option ptask :=
   match l with
@@ -195,39 +196,43 @@ Fixpoint update_task (l : list ptask) (p' : ptask) : list ptask :=
 
 Definition with_pool (s : mstate) (l : list ptask) : mstate :=
   {| pool := l; limbo := limbo s; hist := hist s; subs := subs s; limit := limit s; relq := relq s;
-     abs_done := abs_done s; stop_point := stop_point s; done := done s; to_hold := to_hold s; hold_pt := hold_pt s; saved := saved s; stop_mode := stop_mode s; stop_task := stop_task s |}.
+     abs_done := abs_done s; stop_point := stop_point s; done := done s; to_hold := to_hold s; hold_pt := hold_pt s; saved := saved s; stop_mode := stop_mode s; stop_task := stop_task s; crash_mode := crash_mode s |}.
 Definition with_limbo (s : mstate) (l : list ptask) : mstate :=
   {| pool := pool s; limbo := l; hist := hist s; subs := subs s; limit := limit s; relq := relq s;
-     abs_done := abs_done s; stop_point := stop_point s; done := done s; to_hold := to_hold s; hold_pt := hold_pt s; saved := saved s; stop_mode := stop_mode s; stop_task := stop_task s |}.
+     abs_done := abs_done s; stop_point := stop_point s; done := done s; to_hold := to_hold s; hold_pt := hold_pt s; saved := saved s; stop_mode := stop_mode s; stop_task := stop_task s; crash_mode := crash_mode s |}.
 Definition with_hist (s : mstate) (l : list hrec) : mstate :=
   {| pool := pool s; limbo := limbo s; hist := l; subs := subs s; limit := limit s; relq := relq s;
-     abs_done := abs_done s; stop_point := stop_point s; done := done s; to_hold := to_hold s; hold_pt := hold_pt s; saved := saved s; stop_mode := stop_mode s; stop_task := stop_task s |}.
+     abs_done := abs_done s; stop_point := stop_point s; done := done s; to_hold := to_hold s; hold_pt := hold_pt s; saved := saved s; stop_mode := stop_mode s; stop_task := stop_task s; crash_mode := crash_mode s |}.
 Definition with_subs (s : mstate) (l : list (tid * nat)) : mstate :=
   {| pool := pool s; limbo := limbo s; hist := hist s; subs := l; limit := limit s; relq := relq s;
-     abs_done := abs_done s; stop_point := stop_point s; done := done s; to_hold := to_hold s; hold_pt := hold_pt s; saved := saved s; stop_mode := stop_mode s; stop_task := stop_task s |}.
+     abs_done := abs_done s; stop_point := stop_point s; done := done s; to_hold := to_hold s; hold_pt := hold_pt s; saved := saved s; stop_mode := stop_mode s; stop_task := stop_task s; crash_mode := crash_mode s |}.
 Definition with_limit (s : mstate) (l : option Z) : mstate :=
   {| pool := pool s; limbo := limbo s; hist := hist s; subs := subs s; limit := l; relq := relq s;
-     abs_done := abs_done s; stop_point := stop_point s; done := done s; to_hold := to_hold s; hold_pt := hold_pt s; saved := saved s; stop_mode := stop_mode s; stop_task := stop_task s |}.
+     abs_done := abs_done s; stop_point := stop_point s; done := done s; to_hold := to_hold s; hold_pt := hold_pt s; saved := saved s; stop_mode := stop_mode s; stop_task := stop_task s; crash_mode := crash_mode s |}.
 Definition with_relq (s : mstate) (l : list tid) : mstate :=
   {| pool := pool s; limbo := limbo s; hist := hist s; subs := subs s; limit := limit s; relq := l;
-     abs_done := abs_done s; stop_point := stop_point s; done := done s; to_hold := to_hold s; hold_pt := hold_pt s; saved := saved s; stop_mode := stop_mode s; stop_task := stop_task s |}.
+     abs_done := abs_done s; stop_point := stop_point s; done := done s; to_hold := to_hold s; hold_pt := hold_pt s; saved := saved s; stop_mode := stop_mode s; stop_task := stop_task s; crash_mode := crash_mode s |}.
 Definition with_done (s : mstate) (l : list key) : mstate :=
   {| pool := pool s; limbo := limbo s; hist := hist s; subs := subs s; limit := limit s; relq := relq s;
-     abs_done := abs_done s; stop_point := stop_point s; done := l; to_hold := to_hold s; hold_pt := hold_pt s; saved := saved s; stop_mode := stop_mode s; stop_task := stop_task s |}.
+     abs_done := abs_done s; stop_point := stop_point s; done := l; to_hold := to_hold s; hold_pt := hold_pt s; saved := saved s; stop_mode := stop_mode s; stop_task := stop_task s; crash_mode := crash_mode s |}.
 Definition with_hold (s : mstate) (l : list tid) (hp : option Z) : mstate :=
   {| pool := pool s; limbo := limbo s; hist := hist s; subs := subs s; limit := limit s; relq := relq s;
-     abs_done := abs_done s; stop_point := stop_point s; done := done s; to_hold := l; hold_pt := hp; saved := saved s; stop_mode := stop_mode s; stop_task := stop_task s |}.
+     abs_done := abs_done s; stop_point := stop_point s; done := done s; to_hold := l; hold_pt := hp; saved := saved s; stop_mode := stop_mode s; stop_task := stop_task s; crash_mode := crash_mode s |}.
 Definition with_stop (s : mstate) (sp : Z) (m : option smode) (st : option tid) : mstate :=
   {| pool := pool s; limbo := limbo s; hist := hist s; subs := subs s; limit := limit s; relq := relq s;
      abs_done := abs_done s; stop_point := sp; done := done s; to_hold := to_hold s; hold_pt := hold_pt s;
-     saved := saved s; stop_mode := m; stop_task := st |}.
+     saved := saved s; stop_mode := m; stop_task := st; crash_mode := crash_mode s |}.
 Definition with_saved (s : mstate) (l : list ptask) : mstate :=
   {| pool := pool s; limbo := limbo s; hist := hist s; subs := subs s; limit := limit s; relq := relq s;
      abs_done := abs_done s; stop_point := stop_point s; done := done s; to_hold := to_hold s; hold_pt := hold_pt s;
-     saved := l; stop_mode := stop_mode s; stop_task := stop_task s |}.
+     saved := l; stop_mode := stop_mode s; stop_task := stop_task s; crash_mode := crash_mode s |}.
+Definition with_crash (s : mstate) (b : bool) : mstate :=
+  {| pool := pool s; limbo := limbo s; hist := hist s; subs := subs s; limit := limit s; relq := relq s;
+     abs_done := abs_done s; stop_point := stop_point s; done := done s; to_hold := to_hold s; hold_pt := hold_pt s;
+     saved := saved s; stop_mode := stop_mode s; stop_task := stop_task s; crash_mode := b |}.
 Definition with_abs (s : mstate) (l : list key) : mstate :=
   {| pool := pool s; limbo := limbo s; hist := hist s; subs := subs s; limit := limit s; relq := relq s;
-     abs_done := l; stop_point := stop_point s; done := done s; to_hold := to_hold s; hold_pt := hold_pt s; saved := saved s; stop_mode := stop_mode s; stop_task := stop_task s |}.
+     abs_done := l; stop_point := stop_point s; done := done s; to_hold := to_hold s; hold_pt := hold_pt s; saved := saved s; stop_mode := stop_mode s; stop_task := stop_task s; crash_mode := crash_mode s |}.
 
 (* a task is looked up in the pool first, then among the just-spawned ones *)
 Definition lookup (s : mstate) (t : tid) : option (ptask * bool) :=
@@ -351,6 +356,8 @@ Inductive event :=
 | ERestart
 | ERestore (v : tview)
 | ERestartDone
+| ECrash
+| EAdopt (held : list tid) (hp : option Z) (sp : Z) (stask : option tid)
 | ECmdStop (m : smode)
 | ECmdStopPoint (p : Z)
 | ECmdStopTask (t : option tid)
@@ -518,9 +525,36 @@ Definition step (c : cfg) (s : mstate) (e : event) : res :=
   | ECmdReleaseHoldPoint => Ok (with_hold s [] None)
   | ERemoveBegin t => Ok (with_hold s (drop_hold (to_hold s) t) (hold_pt s))
   | ERestart =>
-      Ok (with_saved (with_limit (with_relq (with_limbo (with_pool (with_stop s (stop_point s) None (stop_task s)) []) []) []) None)
-            (map restored (pool s)))
+      Ok (with_crash
+            (with_saved (with_limit (with_relq (with_limbo (with_pool (with_stop s (stop_point s) None (stop_task s)) []) []) []) None)
+               (map restored (pool s))) false)
+  | ECrash =>
+      (* the process died: what the new process reloads is whatever was last committed *)
+      Ok (with_crash (with_saved (with_limit (with_relq (with_limbo (with_pool
+            (with_stop s (stop_point s) None (stop_task s)) []) []) []) None) []) true)
+  | EAdopt held hp sp stask =>
+      if crash_mode s then Ok (with_stop (with_hold s held hp) sp (stop_mode s) stask) else Err 261
   | ERestore v =>
+      if crash_mode s then
+        (* after a crash any earlier committed state of a task may come back, but only a consistent one:
+           a graph instance, satisfied only by outputs really completed, outputs it really completed,
+           beyond waiting only with true prerequisites; submissions beyond its submit number are forgotten *)
+        match find_inst (c_insts c) (v_id v) with
+        | None => Err 225
+        | Some i =>
+            let p := {| p_id := v_id v; p_status := v_status v; p_held := v_held v; p_queued := false;
+                        p_runahead := v_runahead v; p_flows := v_flows v; p_sat := v_sat v; p_outs := v_outs v;
+                        p_sn := v_sn v; p_rel := false; p_manual := false; p_idle := 0%nat; p_lag := 0%nat |} in
+            if negb (Z.leb (c_icp c) (fst (v_id v)) && Z.leb (fst (v_id v)) (c_fcp c)) then Err 226
+            else if existsb (fun q => tid_eqb (p_id q) (v_id v)) (pool s) then Err 223
+            else if negb (forallb (fun k => mem key_eqb k (done s)) (v_sat v)) then Err 227
+            else if negb (forallb (fun o => mem key_eqb (v_id v, o) (done s)) (v_outs v)) then Err 228
+            else if negb (status_eqb (v_status v) Waiting) && negb (status_eqb (v_status v) Expired)
+                    && negb (prereqs_ok i p) then Err 229
+            else Ok (with_subs (with_pool s (pool s ++ [p]))
+                       (filter (fun x => negb (tid_eqb (fst x) (v_id v)) || Nat.leb (snd x) (v_sn v)) (subs s)))
+        end
+      else
       match find_task (saved s) (v_id v) with
       | None => Err 221                                     (* a task the pool did not hold came back *)
       | Some p =>
@@ -529,6 +563,7 @@ Definition step (c : cfg) (s : mstate) (e : event) : res :=
           else Ok (with_saved (with_pool s (pool s ++ [p])) (remove_task (saved s) (v_id v)))
       end
   | ERestartDone =>
+      if crash_mode s then Ok (with_crash s false) else
       match saved s with [] => Ok s | _ => Err 224 end       (* a pooled task was lost by the restart (C19) *)
   | ECmdStop m => Ok (with_stop s (stop_point s) (Some m) (stop_task s))
   | ECmdStopPoint p =>
